@@ -92,7 +92,7 @@ def _d(seed, label):
     return int.from_bytes(hashlib.sha256(b"c19/%d/%s" % (seed, label.encode())).digest(), "big") % (M.N - 2) + 1
 
 
-OPS = ["sm2_keygen", "sm2_sign", "sm2_sign_ctx", "sm2_decrypt", "sm2_decrypt_bad", "sm2_ecdh", "sm2_import_der", "sm2_import_bad",
+OPS = ["sm2_keygen", "sm2_sign", "sm2_sign_ctx", "sm2_decrypt", "sm2_decrypt_bad", "sm2_ecdh", "sm2_import_der", "sm2_import_bad", "sm2_import_mismatch",
        "pkcs8_open", "pkcs8_wrong_password", "sm9_sign", "sm9_decrypt", "sm9_keygen",
        "hs_tlcp", "hs_tls12", "hs_tls13", "hs_tlcp_mutual", "hs_tls12_mutual", "hs_tls13_mutual",
        "hs_tlcp_untrusted", "hs_tls12_untrusted", "hs_tls13_untrusted", "hs_tls12_badclient",
@@ -259,6 +259,34 @@ def ops(case, ctx):
                     db = Buf.of(der); ip = ctypes.c_void_p(db.ptr); il = ctypes.c_size_t(len(der))
                     ap = ctypes.c_void_p(); al = ctypes.c_size_t()
                     l.sm2_private_key_info_from_der(k, ctypes.byref(ap), ctypes.byref(al), ctypes.byref(ip), ctypes.byref(il))
+                elif op == "sm2_import_mismatch":
+                    # a well-formed private key whose embedded public key is a valid point of ANOTHER key (a stale / foreign public
+                    # key): refused on a path that holds both the scalar and the points, through every importer
+                    other = M.pub_of(_d(seed, "other"))
+                    ooc = b"\x04" + M.i2b(other[0]) + M.i2b(other[1])
+                    k = obj("SM2_KEY")
+                    how = seed % 3
+                    if how == 0:
+                        der = D.enc_pkcs8(M.i2b(d), ooc)
+                        db = Buf.of(der); ip = ctypes.c_void_p(db.ptr); il = ctypes.c_size_t(len(der))
+                        ap = ctypes.c_void_p(); al = ctypes.c_size_t()
+                        r = l.sm2_private_key_info_from_der(k, ctypes.byref(ap), ctypes.byref(al), ctypes.byref(ip), ctypes.byref(il))
+                    elif how == 1:
+                        der = D.enc_ec_private_key(M.i2b(d), ooc)
+                        db = Buf.of(der); ip = ctypes.c_void_p(db.ptr); il = ctypes.c_size_t(len(der))
+                        r = l.sm2_private_key_from_der(k, ctypes.byref(ip), ctypes.byref(il))
+                    else:
+                        pw = b"Secret-pass-%d" % seed
+                        secrets["password"] = pw
+                        pem = pki.key_pem(d, other, password=pw, variant=ctx.variant)
+                        path = os.path.join(B.BUILD, "tmp", "c19_%d_key.pem" % os.getpid())
+                        open(path, "wb").write(pem)
+                        dll = helper()[0]
+                        fp = dll.vh_fopen(path.encode(), b"r")
+                        r = l.sm2_private_key_info_decrypt_from_pem(k, Buf.of(pw + b"\0"), fp)
+                        dll.vh_fclose(fp)
+                    if r == 1:
+                        ctx.note("mismatch-imported")      # C12's business; the error path was not reached in this case
                 elif op in ("pkcs8_open", "pkcs8_wrong_password"):
                     pw = b"Secret-pass-%d" % seed
                     secrets["password"] = pw
